@@ -75,7 +75,7 @@ def probes(rnd):
     ]
     out = []
     for tag, sql in forms:
-        out.append({"doc": doc, "sql": sql, "tag": "probe:" + tag, "seq": tag not in ("group-star", "count", "join-star-subq"),
+        out.append({"doc": doc, "sql": sql, "tag": "probe:" + tag, "seq": tag not in ("group-star", "count", "join-star-subq", "async-derived-join"),
                     "wrapped": False, "pg": False, "arr": False, "consts": None, "mode": "seq", "q": None})
     return out
 
